@@ -3,7 +3,9 @@
    Model: Model/Paths.v (tied to cotengra/core.py and pathfinders/path_basic.py by
    harness/props/c10.py). *)
 From Coq Require Import Lia.
-From Ctg Require Import Base Net Paths BaseFacts PathsFacts.
+From Coq Require Import Permutation.
+From Ctg Require Import Base Net Paths BaseFacts PathsFacts PathsRoundtrip PathsOrdered.
+From Ctg Require ExecOrderFacts.
 
 (* key fact behind linear <-> ssa: on a strictly increasing id list the real binary search
    bisect_left returns the exact position of a present id, so `bisect_left(ids, ids.pop(c))`
@@ -53,18 +55,82 @@ Theorem C10_covers_checker_sound : forall t trav, covers_b t trav = true ->
 Proof. exact covers_b_sound. Qed.
 Print Assumptions C10_covers_checker_sound.
 
-(* get_path_roundtrip / get_ssa_path_roundtrip: PARTIAL -- certified per run by the checkers
-   roundtrip_lin_b / roundtrip_ssa_b (the model's from_path applied to the REAL path gives a
-   single tree with the same set of intermediates), not proved for all trees *)
-Theorem C10_roundtrip_lin_checker_partial : forall N t path, roundtrip_lin_b N t path = true ->
+(* get_path_roundtrip / get_ssa_path_roundtrip.  For every tree t whose leaves are distinct
+   and are 0..N-1 (full_leaves), and EVERY admissible order trav of its internal nodes
+   (ok_order: each internal node at most once, only nodes of t, every internal child strictly
+   earlier; plus trav is a permutation of the internal nodes), rebuilding a tree from the
+   emitted path yields ONE tree t' equal to t up to the left/right order of children (sim;
+   contract_nodes_pair re-decides left/right), and therefore with the same multiset of
+   intermediates (sorted leaf sets).  The pairs of the emitted path are passed as 2-element
+   steps (pl). *)
+Theorem C10_get_ssa_path_roundtrip : forall N t trav,
+  full_leaves N t -> ok_order t trav -> Permutation trav (post_sub t) ->
+  exists t', from_ssa_path N (map pl (get_ssa_path N trav)) = Some [t'] /\ sim t t' /\
+             Permutation (map node_set (post_sub t)) (map node_set (post_sub t')).
+Proof. exact get_ssa_path_roundtrip. Qed.
+Print Assumptions C10_get_ssa_path_roundtrip.
+
+Theorem C10_get_path_roundtrip : forall N t trav,
+  full_leaves N t -> ok_order t trav -> Permutation trav (post_sub t) ->
+  exists t', from_path N (map pl (get_path N trav)) = Some [t'] /\ sim t t' /\
+             Permutation (map node_set (post_sub t)) (map node_set (post_sub t')).
+Proof. exact get_path_roundtrip. Qed.
+Print Assumptions C10_get_path_roundtrip.
+
+(* instances: the dfs order ... *)
+Theorem C10_get_path_roundtrip_dfs : forall N t, full_leaves N t ->
+  exists t', from_path N (map pl (get_path N (post_sub t))) = Some [t'] /\ sim t t' /\
+             Permutation (map node_set (post_sub t)) (map node_set (post_sub t')).
+Proof. exact get_path_roundtrip_dfs. Qed.
+Print Assumptions C10_get_path_roundtrip_dfs.
+
+Theorem C10_get_ssa_path_roundtrip_dfs : forall N t, full_leaves N t ->
+  exists t', from_ssa_path N (map pl (get_ssa_path N (post_sub t))) = Some [t'] /\ sim t t' /\
+             Permutation (map node_set (post_sub t)) (map node_set (post_sub t')).
+Proof. exact get_ssa_path_roundtrip_dfs. Qed.
+Print Assumptions C10_get_ssa_path_roundtrip_dfs.
+
+(* ... and every order that is valid in the sense of C01's ExecOrderFacts.valid_order *)
+Theorem C10_roundtrips_valid_order : forall N t order, full_leaves N t -> ExecOrderFacts.valid_order t order ->
+  (exists t', from_path N (map pl (get_path N (map snd order))) = Some [t'] /\ sim t t' /\
+             Permutation (map node_set (post_sub t)) (map node_set (post_sub t'))) /\
+  (exists t', from_ssa_path N (map pl (get_ssa_path N (map snd order))) = Some [t'] /\ sim t t' /\
+             Permutation (map node_set (post_sub t)) (map node_set (post_sub t'))).
+Proof. exact roundtrips_valid_order. Qed.
+Print Assumptions C10_roundtrips_valid_order.
+
+(* traverse_ordered_children_first (+ traverse_covers_all_nodes_once): for an ARBITRARY score
+   function, the model of _traverse_ordered -- queue / scores / seen, bisect run as the real
+   binary search on the prefix scores[:i], no sortedness of the scores assumed -- returns an
+   admissible order: every internal node of t exactly once, every internal child strictly
+   before its parent.  (Hypothesis: the leaves of t are distinct.) *)
+Theorem C10_traverse_ordered_children_first : forall order t, NoDup (leaves t) ->
+  ok_order t (traverse_ordered order t) /\ Permutation (traverse_ordered order t) (post_sub t).
+Proof. exact traverse_ordered_ok. Qed.
+Print Assumptions C10_traverse_ordered_children_first.
+
+(* hence tree -> get_path(order) -> from_path is lossless for every callable order *)
+Theorem C10_roundtrips_traverse_ordered : forall order N t, full_leaves N t ->
+  (exists t', from_path N (map pl (get_path N (traverse_ordered order t))) = Some [t'] /\ sim t t' /\
+              Permutation (map node_set (post_sub t)) (map node_set (post_sub t'))) /\
+  (exists t', from_ssa_path N (map pl (get_ssa_path N (traverse_ordered order t))) = Some [t'] /\ sim t t' /\
+              Permutation (map node_set (post_sub t)) (map node_set (post_sub t'))).
+Proof.
+  intros order N t H. destruct (traverse_ordered_ok order t (proj1 H)) as [Hok HP].
+  split; [apply get_path_roundtrip|apply get_ssa_path_roundtrip]; assumption.
+Qed.
+Print Assumptions C10_roundtrips_traverse_ordered.
+
+(* the per-run checkers stay as a cross-check between the model and the real paths *)
+Theorem C10_roundtrip_lin_checker_sound : forall N t path, roundtrip_lin_b N t path = true ->
   exists t', from_path N path = Some [t'] /\ same_nodes t t' = true.
 Proof. exact roundtrip_lin_b_sound. Qed.
-Print Assumptions C10_roundtrip_lin_checker_partial.
+Print Assumptions C10_roundtrip_lin_checker_sound.
 
-Theorem C10_roundtrip_ssa_checker_partial : forall N t path, roundtrip_ssa_b N t path = true ->
+Theorem C10_roundtrip_ssa_checker_sound : forall N t path, roundtrip_ssa_b N t path = true ->
   exists t', from_ssa_path N path = Some [t'] /\ same_nodes t t' = true.
 Proof. exact roundtrip_ssa_b_sound. Qed.
-Print Assumptions C10_roundtrip_ssa_checker_partial.
+Print Assumptions C10_roundtrip_ssa_checker_sound.
 
 (* one conversion step is inverted exactly, for ALL strictly increasing id lists and all
    strictly descending in-range position lists (= sorted(con, reverse=True) of distinct valid
@@ -77,14 +143,26 @@ Theorem C10_step_positions_recovered : forall ids ds,
 Proof. exact step_positions_recovered. Qed.
 Print Assumptions C10_step_positions_recovered.
 
-(* linear_ssa_inverse: PARTIAL -- the exact-position lemma and the id-list invariant above are
-   proved for all inputs; their assembly into "ssa_to_linear (linear_to_ssa p) = p up to the
-   order inside a step, for every valid path" is certified per run by inverse_ok_b on
-   generated general paths (unary, pairwise, n-ary, unsorted steps), not proved *)
-Theorem C10_linear_ssa_inverse_checker_partial : forall path N, inverse_ok_b path N = true ->
+(* linear_ssa_inverse / ssa_linear_inverse, for ALL valid paths (steps of any length >= 1).
+   valid_lin m p: every step is non-empty, duplicate-free, names positions < current number of
+   tensors.  valid_ssa live ssa p: every step is non-empty, duplicate-free and names live ids;
+   used ids die, the fresh id is born.  The converters are exact inverses up to the order inside
+   a step (ssa_to_linear sorts a step ascending, linear_to_ssa lists it by descending position). *)
+Theorem C10_linear_ssa_inverse : forall path N, valid_lin N path ->
+  ssa_to_linear (linear_to_ssa path N) N = map sort_asc path.
+Proof. exact linear_ssa_inverse. Qed.
+Print Assumptions C10_linear_ssa_inverse.
+
+Theorem C10_ssa_linear_inverse : forall spath N, valid_ssa (seq 0 N) N spath ->
+  linear_to_ssa (ssa_to_linear spath N) N = map sort_desc spath.
+Proof. exact ssa_linear_inverse. Qed.
+Print Assumptions C10_ssa_linear_inverse.
+
+(* the per-run checker on generated general paths stays as a cross-check of the model *)
+Theorem C10_linear_ssa_inverse_checker_sound : forall path N, inverse_ok_b path N = true ->
   ssa_to_linear (linear_to_ssa path N) N = map sort_asc path.
 Proof. exact inverse_ok_b_sound. Qed.
-Print Assumptions C10_linear_ssa_inverse_checker_partial.
+Print Assumptions C10_linear_ssa_inverse_checker_sound.
 
 (* non-vacuity: a 5-leaf tree; an order with ties; all conversions agree *)
 Example C10_nonvacuous :
@@ -99,9 +177,15 @@ Example C10_nonvacuous :
   ssa_to_linear [[4;2]; [3;0]; [6;1]; [7;5]] 5 = [[2;4]; [0;2]; [0;2]; [0;1]] /\
   roundtrip_lin_b 5 t [[2;4]; [0;2]; [0;2]; [0;1]] = true /\
   strictly_increasing [1; 5; 6] /\ bisect_left [1;5;6] 5 = 1 /\
-  edge_path_to_ssa [1; 2; 0] [[0;1]; [1;2]; [2;0;1]] = ([[0;1;2]], false).
+  edge_path_to_ssa [1; 2; 0] [[0;1]; [1;2]; [2;0;1]] = ([[0;1;2]], false) /\
+  full_leaves 5 t /\ valid_lin 5 [[2;4]; [0;2]; [0;2]; [0;1]] /\ valid_ssa (seq 0 5) 5 [[4;2]; [3;0]; [6;1]; [7;5]].
 Proof.
-  cbn zeta. repeat split; try (vm_compute; reflexivity).
-  intros i j Hij Hj. cbn in Hj.
-  destruct j as [|[|[|j]]]; destruct i as [|[|[|i]]]; cbn; lia.
+  cbn zeta. repeat match goal with |- _ /\ _ => split end; try (vm_compute; reflexivity).
+  - intros i j Hij Hj. cbn in Hj.
+    destruct j as [|[|[|j]]]; destruct i as [|[|[|i]]]; cbn; lia.
+  - split; [|split]; [| |reflexivity].
+    + cbn. repeat constructor; cbn; intuition lia.
+    + cbn. intuition lia.
+  - cbn. repeat split; try discriminate; try (repeat constructor; cbn; intuition lia); cbn; intuition lia.
+  - cbn. repeat split; try discriminate; try (repeat constructor; cbn; intuition lia); cbn; intuition lia.
 Qed.
